@@ -50,6 +50,8 @@ AllDevs == {"F4", "F10", "F10b", "F11", "F11b", "F12", "F23", "F24", "F24b", "F2
 (* ---- byte strings --------------------------------------------------------- *)
 Absent == <<-1>>                  \* "this field is not in the request"
 Val(b) == IF b = Absent THEN <<>> ELSE b
+Run(n) == <<-2, n>>               \* "n bytes" (a long comment is not spelled out)
+BLen(b) == IF b = Absent THEN 0 ELSE IF Len(b) = 2 /\ b[1] = -2 THEN b[2] ELSE Len(b)
 Range(sq) == {sq[i] : i \in DOMAIN sq}
 MinOf(S) == CHOOSE x \in S : \A y \in S : x <= y
 
@@ -323,8 +325,8 @@ DoSetInfo(t, m, s, rp, D) ==
       cm == Val(s.comment)
       (* the fork file is opened through an alias of that name, if there is one *)
       ipr == IF Has(t, ip) /\ t[ip].k = "link" THEN (IF StatErr(t, ip) = "ok" THEN Follow(t, ip, 3) ELSE t[ip].t) ELSE ip
-      newInfo == IF Has(t, ipr) /\ t[ipr].k = "file" THEN InfoN(t[ipr].s - t[ipr].c + Len(cm), Len(cm), t[ipr].ty)
-                 ELSE InfoN(74 + Len(Base(p)) + Len(cm), Len(cm), IF isDir THEN Fldr ELSE TypeOfName(Base(p)))
+      newInfo == IF Has(t, ipr) /\ t[ipr].k = "file" THEN InfoN(t[ipr].s - t[ipr].c + BLen(s.comment), BLen(s.comment), t[ipr].ty)
+                 ELSE InfoN(74 + Len(Base(p)) + BLen(s.comment), BLen(s.comment), IF isDir THEN Fldr ELSE TypeOfName(Base(p)))
       w == IF s.comment = Absent THEN Good(t)
            ELSE IF ~SideOK(p, rp, D) THEN Fail(t, "other") ELSE CreateFS(t, ipr, newInfo)
       t1 == w.t
@@ -625,8 +627,8 @@ Requested(s, T0, rp) ==
        [] s.kind = "alias" -> With(T0, dst \o <<Base(p)>>, LinkN(p))
        [] s.kind = "rename" -> Image(T0, p, Resolve(rp, pr.items, Val(s.newname)), T0[p].k = "file")
        [] s.kind = "move" -> Image(T0, p, dst \o <<Base(p)>>, TRUE)
-       [] s.kind = "setcomment" -> With(T0, InfoOf(p), IF Has(T0, InfoOf(p)) THEN InfoN(T0[InfoOf(p)].s - T0[InfoOf(p)].c + Len(cm), Len(cm), T0[InfoOf(p)].ty)
-                                                          ELSE InfoN(74 + Len(Base(p)) + Len(cm), Len(cm), IF T0[p].k = "dir" THEN Fldr ELSE TypeOfName(Base(p))))
+       [] s.kind = "setcomment" -> With(T0, InfoOf(p), IF Has(T0, InfoOf(p)) THEN InfoN(T0[InfoOf(p)].s - T0[InfoOf(p)].c + BLen(s.comment), BLen(s.comment), T0[InfoOf(p)].ty)
+                                                          ELSE InfoN(74 + Len(Base(p)) + BLen(s.comment), BLen(s.comment), IF T0[p].k = "dir" THEN Fldr ELSE TypeOfName(Base(p))))
        [] OTHER -> T0
 
 (* ---- differences between two trees -------------------------------------------------------------- *)
